@@ -16,6 +16,9 @@ package codegen
 //@     : (T == "int32" || T == "uint32") ? 32 : 64
 //@ spec in_rng(T, x) = x >= rng_lo(T) && x <= rng_hi(T)
 
+// A bound check may be dropped only when the chosen type's range implies it:
+// (forall x in rng(T): x >= nMin) <==> nMin <= rng_lo(T), stated in that closed form.
+
 // fits: every integer in [lo, hi] (the integer hull of the bounds) is in T.
 //@ spec fits(T, lo, hi) = lo != nil && hi != nil && rng_lo(T) <= ceil(*lo) && floor(*hi) <= rng_hi(T)
 //@ spec nonempty(lo, hi) = lo == nil || hi == nil || ceil(*lo) <= floor(*hi)
@@ -26,32 +29,43 @@ package codegen
 
 //@ func adjustForSignedBounds
 //@   props C15
+//@   requires int-min: nMin != nil ==> is_int(*nMin)
+//@   requires int-max: nMax != nil ==> is_int(*nMax)
 //@   shape result0 = "int8" | "int16" | "int32" | "int64"
 //@   assigns nothing
 //@   ensures [C15] rep: forall x int :: in_rng("int64", x) && (nMin != nil ==> x >= *nMin) && (nMax != nil ==> x <= *nMax) ==> in_rng(result0, x)
-//@   ensures [C15] drop-min: forall x int :: result1 && in_rng(result0, x) ==> nMin != nil && x >= *nMin
-//@   ensures [C15] drop-max: forall x int :: result2 && in_rng(result0, x) ==> nMax != nil && x <= *nMax
+//@   ensures [C15] drop-min: result1 ==> nMin != nil && *nMin <= rng_lo(result0)
+//@   ensures [C15] drop-max: result2 ==> nMax != nil && *nMax >= rng_hi(result0)
 //@   ensures [C15] narrow: nonempty(nMin, nMax) && (nMin == nil || *nMin < 0) ==> narrowest(result0, nMin, nMax)
 
 //@ func adjustForUnsignedBounds
 //@   props C15
 //@   shape result0 = "uint8" | "uint16" | "uint32" | "uint64"
-//@   requires nMin != nil && *nMin >= 0
+//@   requires nonneg: nMin != nil && *nMin >= 0
+//@   requires int-min: is_int(*nMin)
+//@   requires int-max: nMax != nil ==> is_int(*nMax)
 //@   assigns nothing
 //@   ensures [C15] rep: forall x int :: in_rng("int64", x) && x >= *nMin && (nMax != nil ==> x <= *nMax) ==> in_rng(result0, x)
-//@   ensures [C15] drop-min: forall x int :: result1 && in_rng(result0, x) ==> x >= *nMin
-//@   ensures [C15] drop-max: forall x int :: result2 && in_rng(result0, x) ==> nMax != nil && x <= *nMax
+//@   ensures [C15] drop-min: result1 ==> *nMin <= rng_lo(result0)
+//@   ensures [C15] drop-max: result2 ==> nMax != nil && *nMax >= rng_hi(result0)
 //@   ensures [C15] narrow: nonempty(nMin, nMax) ==> narrowest(result0, nMin, nMax)
 
 // Integer hull of the admitted set, as pointers-or-nil are not available in the
 // spec language the hull is described by predicates over x.
+// Stated bound of the proof: float64 +/- 1.0 on integers strictly between 2^53
+// and 2^54 is a rounding tie that the real-number model does not decide; bounds
+// in that zone are excluded (everything else, including 2^63 and 2^64, is in).
+//@ spec fp_zone_ok(p) = p == nil || abs(*p) <= pow2(53) || abs(*p) >= pow2(54)
+//@ spec fp_zone_ok_any(p) = p == nil || !is_float(*p) || abs(as_float(*p)) <= pow2(53) || abs(as_float(*p)) >= pow2(54)
+
 //@ func getMinIntType
 //@   props C15
+//@   requires fp-zone: fp_zone_ok(minimum) && fp_zone_ok(maximum) && fp_zone_ok_any(exclusiveMinimum) && fp_zone_ok_any(exclusiveMaximum)
 //@   shape result0 = "int8" | "int16" | "int32" | "int64" | "uint8" | "uint16" | "uint32" | "uint64"
 //@   assigns nothing
-//@   ensures [C15] rep: forall x int :: in_rng("int64", x) && lower_ok(minimum, exclusiveMinimum, x) && upper_ok(maximum, exclusiveMaximum, x) ==> in_rng(result0, x)
-//@   ensures [C15] drop-min: forall x int :: result1 && in_rng(result0, x) ==> lower_ok(minimum, exclusiveMinimum, x)
-//@   ensures [C15] drop-max: forall x int :: result2 && in_rng(result0, x) ==> upper_ok(maximum, exclusiveMaximum, x)
+//@   ensures [C15] rep: forall x int :: in_rng("int64", x) && old(lower_ok(minimum, exclusiveMinimum, x)) && old(upper_ok(maximum, exclusiveMaximum, x)) ==> in_rng(result0, x)
+//@   ensures [C15] drop-min: forall x int :: result1 && in_rng(result0, x) ==> old(lower_ok(minimum, exclusiveMinimum, x))
+//@   ensures [C15] drop-max: forall x int :: result2 && in_rng(result0, x) ==> old(upper_ok(maximum, exclusiveMaximum, x))
 
 //@ spec prim_name(t) = dyn(t) == "*codegen.PointerType" ? t.Type.Type : t.Type
 
@@ -59,7 +73,8 @@ package codegen
 //@   props C15
 //@   shape jsType = "integer"
 //@   shape format = "" | "date"
-//@   requires minimum != nil && maximum != nil && exclusiveMinimum != nil && exclusiveMaximum != nil
+//@   requires nonnil: minimum != nil && maximum != nil && exclusiveMinimum != nil && exclusiveMaximum != nil
+//@   requires fp-zone: fp_zone_ok(*minimum) && fp_zone_ok(*maximum) && fp_zone_ok_any(*exclusiveMinimum) && fp_zone_ok_any(*exclusiveMaximum)
 //@   assigns *minimum, *maximum, *exclusiveMinimum, *exclusiveMaximum
 //@   ensures [C15] ok: result1 == nil && result0 != nil
 //@   ensures [C15] off: !minIntSize ==> prim_name(result0) == "int" && unchanged(*minimum) && unchanged(*maximum) && unchanged(*exclusiveMinimum) && unchanged(*exclusiveMaximum)
